@@ -25,6 +25,8 @@ func main() {
 		os.Exit(check(os.Args[2:]))
 	case "replay":
 		os.Exit(replay(os.Args[2:]))
+	case "explore":
+		explore(os.Args[2:])
 	case "list":
 		for _, id := range rules.IDs() {
 			fmt.Println(id)
@@ -123,4 +125,30 @@ func replay(args []string) int {
 	}
 	fmt.Printf("replaying %s %s %s: re-running the property's rules on /repo\n", v.Property, v.Rule, v.Key)
 	return check([]string{"-prop", v.Property, "-tier", "quick"})
+}
+
+// explore prints what engine A sees in a function under the empty valuation
+// (development aid: shows the feature keys the code branches on).
+func explore(args []string) {
+	p, err := an.Load("/repo", an.BuildConfig{}, nil)
+	if err != nil {
+		fmt.Println(err)
+		os.Exit(2)
+	}
+	for _, k := range args {
+		fn := p.Fn(k)
+		if fn == nil {
+			fmt.Println("no such function:", k)
+			for _, f := range p.FnsMatching(k) {
+				fmt.Println("  candidate:", an.FnKey(f))
+			}
+			continue
+		}
+		it := &an.Interp{P: p, Env: an.Env{}}
+		o := it.Run(fn, nil)
+		fmt.Printf("%s: exit=%s ret=[%s] und=%s\n", k, o.Exit, o.RetString(), o.Und)
+		for _, e := range o.Effects {
+			fmt.Println("   ", e.String())
+		}
+	}
 }
